@@ -82,7 +82,7 @@ def run(report, tier):
             kani::cover!(r.is_some() && len == 2, "two-byte abbreviation found");
             kani::cover!(r.is_none(), "none");
         }
-    """ % (nbytes, nbytes), unwind=8, key="from_abbr/strings<=%d" % nbytes, timeout=1500,
+    """ % (nbytes, nbytes), unwind=8, key="from_abbr/strings<=%d" % nbytes, timeout=(600 if nbytes <= 3 else 3000),
                    sample={"harness": "from_abbr_bounded_strings", "symbolic": "any UTF-8 string of <= %d bytes, any table row k" % nbytes,
                            "asserts": "Some(p) => p.abbr()==s ; None => ABBRS[k] != s for every k"}))
 
@@ -106,5 +106,5 @@ def run(report, tier):
         assert!(SIPrefix::from_exp(e).is_none());
     """, expect="fail", key="canary", symbolic=False))
 
-    kc.run(report, timeout=900 if tier == "quick" else 3000)
+    kc.run(report, timeout=600 if tier == "quick" else 3000)
     confirm_failures(report)
